@@ -35,5 +35,7 @@ def run(ctx):
     check_effect_tables(ctx, "C06")
     from ..rules_common import check_presence_tests, ARG_SCOPE
     check_presence_tests(ctx, "C06.PRESENCE", classes=ARG_SCOPE.get("C06", []))
+    from ..rules_common import check_param_rebinding
+    check_param_rebinding(ctx, "C06.PARAMS", classes=ARG_SCOPE.get("C06", []))
 
 
